@@ -4,7 +4,7 @@
    normalize, symbolic_push, symbolic_append), in-place resolution (all five branches) and authority-handle histories. *)
 From Coq Require Import List NArith Bool Arith.
 Import ListNotations.
-Require Import V.Regex V.Parse V.ParseProofs V.PathSpec V.Splice V.Setters V.Push V.Auth V.AuthProofs V.AuthMut V.AuthMutProofs2 V.RefPath V.RefAuth V.C04Proofs V.C04Proofs2 V.Abnf V.BridgePaths V.C02Bridge V.ValidSetInst V.C04Valid V.C04Valid2 V.ResolveValid V.C04Valid3.
+Require Import V.Regex V.Parse V.ParseProofs V.PathSpec V.Splice V.Setters V.Push V.Auth V.AuthProofs V.AuthMut V.AuthMutProofs2 V.RefPath V.RefAuth V.C04Proofs V.C04Proofs2 V.Abnf V.BridgePaths V.C02Bridge V.ValidSetInst V.C04Valid V.C04Valid2 V.ResolveValid V.C04Valid3 V.PathBufValid.
 Local Open Scope nat_scope.
 
 Theorem C04_setter_sequences_partial : forall (ops : list sop) (p : parts), wf_parts p -> Forall arg_ok ops ->
@@ -51,14 +51,24 @@ Theorem C04_all_mutators_keep_validity_IRI : forall ops s, L (IRI_reference I C0
 Proof. exact valid_all_I. Qed.
 Print Assumptions C04_all_mutators_keep_validity_IRI.
 
+(* THE OWNED PATH TYPE (PathBuf: every call takes a fresh handle on the whole buffer -- start = 0, follows_authority):
+   any finite sequence of push / pop / clear / normalize / symbolic_push / symbolic_append with segment arguments of the
+   grammar maps a path of the grammar to a path of the grammar, without panic *)
+Theorem C04_pathbuf_sequences_URI : forall ops p, L (ipath U) p -> Forall (barg U) ops -> exists p', brun ops p = Some p' /\ L (ipath U) p'.
+Proof. exact pathbuf_sequences_U. Qed.
+Print Assumptions C04_pathbuf_sequences_URI.
+Theorem C04_pathbuf_sequences_IRI : forall ops p, L (ipath I) p -> Forall (barg I) ops -> exists p', brun ops p = Some p' /\ L (ipath I) p'.
+Proof. exact pathbuf_sequences_I. Qed.
+Print Assumptions C04_pathbuf_sequences_IRI.
+
 (* the same for sequences that MIX the five setters, path push / pop / clear / normalize / symbolic_push /
    symbolic_append (through a handle taken on the reference), in-place resolution against any well-formed base that
    has a scheme, and whole histories of
    set_userinfo / set_host / set_port edits through one authority handle (the invariant additionally says that
    the authority, when present, is [userinfo@]host[:port] with delimiter-well-formed parts): every call returns
    (no panic: all index arithmetic is checked in the model) and the buffer is again compose of such parts.
-   Not covered by this theorem: the mutators of the owned path / authority types outside a reference (PathBuf,
-   AuthorityBuf: model + correspondence only; their handles are the same code run on a whole-buffer handle). *)
+   The owned types outside a reference: PathBuf is C04_pathbuf_sequences_URI / _IRI above; AuthorityBuf is the case
+   before = after = [] of C11_history and C11_history_valid_URI / _IRI. *)
 Theorem C04_mixed_sequences_partial : forall (ms : list mop) (p : parts), wf_parts p -> auth_shape p -> Forall marg_ok ms ->
   exists p', mrun ms (compose p) = Some (compose p') /\ wf_parts p' /\ auth_shape p'.
 Proof. exact mrun_wf. Qed.
